@@ -57,3 +57,4 @@ Example C11_example :
   | None => False
   end.
 Proof. vm_compute. reflexivity. Qed.
+Print Assumptions C11_example.
